@@ -817,7 +817,7 @@ func uncaughtPanic(out *scenOut) {
 	case <-runDone:
 	case <-time.After(3 * time.Second):
 		out.fail(finding{Property: "C13", Class: "harness", What: "Run did not end by the panic", Input: desc})
-		p.Kill()
+		killNow(p)
 		return
 	}
 	start("send@after", func() { p.Send(userMsg{7, 2}) })
@@ -839,7 +839,7 @@ func uncaughtPanic(out *scenOut) {
 	if len(stuck) > 0 {
 		out.fail(finding{Property: "C13", Class: "new", What: "calls never return after Run ended by a panic that was not caught by the program (WithoutCatchPanics)", Input: desc,
 			Expected: "every call returns once the program has ended", Observed: strings.Join(stuck, ",")})
-		p.Kill()
+		killNow(p)
 	}
 }
 
@@ -1120,7 +1120,7 @@ func runAgain(out *scenOut) {
 	case <-first:
 	case <-time.After(4 * time.Second):
 		out.fail(finding{Property: "C04", Class: "new", What: "Run does not return after Quit", Input: desc})
-		p.Kill()
+		killNow(p)
 		return
 	}
 	type call struct {
@@ -1199,8 +1199,11 @@ func quitBeforeRun(out *scenOut, pendingWork bool) {
 		}
 	case <-time.After(4 * time.Second):
 		out.fail(finding{Property: "C04", Class: "new", What: "Run does not return although Quit() was called (before Run)", Input: desc, Expected: "Run returns nil", Observed: "still running after 4s"})
-		p.Kill()
-		<-runDone
+		killNow(p)
+		select {
+		case <-runDone:
+		case <-time.After(3 * time.Second):
+		}
 	}
 	select {
 	case <-quitDone:
@@ -1244,7 +1247,7 @@ func manyLateCalls(out *scenOut, cause string) {
 	time.Sleep(50 * time.Millisecond)
 	switch cause {
 	case "kill":
-		run.p.Kill()
+		killNow(run.p)
 	default:
 		go run.p.Quit()
 	}
@@ -1313,7 +1316,7 @@ func waitBeforeRun(out *scenOut, cause string) {
 	time.Sleep(30 * time.Millisecond)
 	switch cause { // the program is ended before it begins
 	case "kill-before-run":
-		p.Kill()
+		killNow(p)
 	case "ctx-before-run":
 		cancelCtx()
 	}
